@@ -109,6 +109,19 @@ KindOK(entk, m) ==
                             tid = -1 \/ objs[tid].k \notin {"group", "dataset"} \/ entk = objs[tid].k
     [] OTHER -> TRUE     \* external links: nothing to compare against inside this file
 
+\* Every path of the file (GroupWalk!AllPaths): a hard link resolves to the SAME object as its target, so the members of a
+\* group are there under every path that leads to it.  The unfolding stops where a path would enter a group it has passed
+\* already; that closing link is still a member of its group and is listed (without members of its own).  Evaluated when
+\* few groups have a second link (the unfolding doubles with every such group met in sequence).
+RECURSIVE AliasPaths(_, _, _)
+AliasPaths(id, pc, seen) ==
+  {pc} \cup (IF objs[id].k # "group" THEN {}
+             ELSE UNION {LET c == objs[id].links[n] IN
+                         IF objs[c].k = "group" /\ c \notin seen /\ Len(pc) < 12
+                         THEN AliasPaths(c, Append(pc, n), seen \cup {c}) ELSE {Append(pc, n)} : n \in DOMAIN objs[id].links})
+SharedGroups == {i \in DOMAIN objs : objs[i].k = "group" /\ InDegree(i) >= 2}
+Required == IF SharedGroups # {} /\ Cardinality(SharedGroups) <= 4 THEN created \cup (AliasPaths(Root, <<>>, {Root}) \ {<<>>}) ELSE created
+
 ObserveItems(e) ==
   IF e.open # "ok" THEN <<[diag |-> "file-does-not-open", detail |-> e.open]>>
   ELSE
@@ -116,7 +129,7 @@ ObserveItems(e) ==
         idx == DOMAIN T
         rid(i) == Resolve(T[i].pc)
         dupP == {i \in idx : \E j \in idx : j < i /\ T[j].pc = T[i].pc}
-        miss == {pc \in created : ~\E i \in idx : T[i].pc = pc}
+        miss == {pc \in Required : ~\E i \in idx : T[i].pc = pc}
         extra == {i \in idx : rid(i) = -1}
         hard == {i \in idx : rid(i) # -1 /\ objs[rid(i)].k \in {"group", "dataset"}}
         wrongk == {i \in idx : rid(i) # -1 /\ ~KindOK(T[i].k, objs[rid(i)])}
@@ -133,8 +146,8 @@ ObserveItems(e) ==
                                        \* is the object itself shown under another (alias) path?
                                        aliased |-> \E k \in 1..(Len(pc) - 1) : InDegree(Resolve(SubSeq(pc, 1, k))) >= 2,
                                        elsewhere |-> \E i \in idx : rid(i) = Resolve(pc),
-                                       \* is it a member of a group that was created with dense link storage?
-                                       dense |-> Len(pc) >= 2 /\ ParentOf(pc) # -1 /\ objs[ParentOf(pc)].t = <<"dense">>])
+                                       \* is it below a group that was created with dense link storage?
+                                       dense |-> \E k \in 1..(Len(pc) - 1) : LET a == Resolve(SubSeq(pc, 1, k)) IN a # -1 /\ objs[a].t = <<"dense">>])
        \o SetToSeq(extra, LAMBDA i : [diag |-> "extra-path", p |-> T[i].p, k |-> T[i].k])
        \o SetToSeq(wrongk, LAMBDA i : [diag |-> "wrong-kind", p |-> T[i].p, got |-> T[i].k, exp |-> objs[rid(i)].k])
        \o SetToSeq(ident, LAMBDA i : [diag |-> "hardlink-identity", p |-> T[i].p])
